@@ -135,7 +135,7 @@ CHECKS = {
         text=("For each of 6 decided blocks built by a real proposer (CheckTx + PrepareProposal, vote extensions signed by the "
               "genesis validators, incl. a currency-pair removal priced by the block's own extended commit): every sequence of "
               "<= 2 (thorough 3) pre-calls from {ProcessProposal(decided), PrepareProposal(decided), ProcessProposal(other), "
-              "PrepareProposal(other), ProcessProposal(invalid), restart} followed by FinalizeBlock(decided)+Commit, each on an "
+              "PrepareProposal(other), ProcessProposal(undecodable), ProcessProposal(rejected after partial execution), restart} followed by FinalizeBlock(decided)+Commit, each on an "
               "identically built chain with real storage; compared with the sync path on app hash, per-tx (code, data, gas), "
               "validator/consensus-param updates, the full committed state dump, and success/failure."),
         note="Single decided block after a fixed prefix; hash-map iteration order inside the app is sampled (one App per path), not enumerated. One known finding listed in known_findings.txt.",
@@ -237,7 +237,7 @@ CHECKS = {
     "C18": dict(
         category="model_checking",
         technique="explicit-state BFS over real Ics20Withdrawal transactions and the real Ics20Transfer packet handlers with a reference escrow ledger",
-        text=("BFS over every sequence of <= 3 (thorough 5) events from 14 (thorough 21) outgoing / incoming ICS-20 events on forks of "
+        text=("BFS over every sequence of <= 3 (thorough 5) events from 19 (thorough 26) outgoing / incoming ICS-20 events on forks of "
               "a real block state with open channels, connection and client: withdrawals (native asset in trace and ibc/ form, two "
               "channels, from a bridge with an event id, foreign asset) through the real transaction path; incoming packets (returning "
               "and foreign assets, plain and bridge recipients, good/bad memos, amounts above the escrow), error acks and timeouts of "
